@@ -327,6 +327,20 @@ impl LightClientProtocol {
             );
             return Err(StatusCode::InvalidChainRoot.with_context(errmsg));
         }
+        // A last state is trusted with its total difficulty, which is from its chain root: a
+        // block before the MMR activation doesn't commit a chain root (and it is much older than
+        // any last state of a peer which is not in the initial block download).
+        if !header.is_genesis()
+            && header.epoch() <= EpochNumberWithFraction::new(self.mmr_activated_epoch(), 0, 1)
+        {
+            let errmsg = format!(
+                "no chain root is committed by block#{}, hash: {:#x}, epoch: {:#}",
+                header.number(),
+                header.hash(),
+                header.epoch()
+            );
+            return Err(StatusCode::InvalidChainRoot.with_context(errmsg));
+        }
         // Check Total Difficulty
         if verifiable_header.checked_total_difficulty().is_none() {
             let errmsg = format!(
